@@ -94,7 +94,130 @@ def variants_stream(ctx, n):
                 ctx.disagree("C02:grid-join:value", desc, "join of every pair", r[1:3] if r[0] != "ok" else "differs", replay=[desc])
 
 
+def rounded_dependent_stream(ctx, n):
+    """dependent configurations reached by a floating point computation (a sum, a transformation and its inverse, a convex
+    combination) instead of being typed in: the residual of the contraction is rounding noise (~1e-16), far inside the
+    library's tolerance, so the documented error has to be raised (single objects and, with the exact mask, collections)"""
+    import geometer as g
+    rng = ctx.rng
+    for k in range(n):
+        dim = rng.choice([2, 3])
+        kind = rng.choice(["sum", "roundtrip", "combination", "collection"])
+        def fp():
+            return [rng.randint(-9, 9) / 10.0 for _ in range(dim)]
+        a = fp()
+        if kind == "sum":
+            # the same point through two different float paths: x/10 + y/10 against (x + y)/10
+            i1, i2 = rng.randint(1, 9), rng.randint(1, 9)
+            p = g.Point(*([i1 / 10.0 + i2 / 10.0] + a[1:]))
+            q = g.Point(*([(i1 + i2) / 10.0] + a[1:]))
+            f, desc = (lambda: g.join(p, q)), f"join of (x/10 + y/10, ...) and ((x+y)/10, ...) x={i1} y={i2} rest={a[1:]}"
+        elif kind == "roundtrip":
+            t = g.rotation(np.arctan2(3.0, 4.0)) if dim == 2 else g.rotation(np.arctan2(5.0, 12.0), axis=g.Point(1.0, 2.0, 2.0))
+            p = g.Point(*a)
+            q = t.inverse() * (t * p)
+            f, desc = (lambda: g.join(p, q)), f"join of p and t^-1 (t p), p={a}, dim={dim}"
+        elif kind == "combination":
+            b = fp()
+            if a == b:
+                continue
+            A, B = g.Point(*a), g.Point(*b)
+            lam = rng.choice([0.3, 0.7, 1.1, -0.4])
+            C = g.Point(*[x + lam * (y - x) for x, y in zip(a, b)])
+            if dim == 2:
+                f, desc = (lambda: g.join(A, B).meet(g.join(A, C))), f"meet of the lines AB and AC with C on AB: a={a} b={b} lam={lam}"
+            else:
+                f, desc = (lambda: g.join(g.join(A, B), C)), f"join of the line AB and a point C on it (3-D): a={a} b={b} lam={lam}"
+        else:
+            b = fp()
+            if a == b:
+                continue
+            i1, i2 = rng.randint(1, 9), rng.randint(1, 9)
+            P = g.PointCollection(np.array([[i1 / 10.0 + i2 / 10.0] + a[1:] + [1.0], b + [1.0]]))
+            Q = g.PointCollection(np.array([[(i1 + i2) / 10.0] + a[1:] + [1.0], a + [1.0]]))
+            f, desc = (lambda: g.join(P, Q)), f"collection join, position 0 coincident up to rounding, position 1 distinct: a={a} b={b} x={i1} y={i2}"
+        ctx.case(desc)
+        ctx.count("rounded-dependent:" + kind)
+        r = call_impl(f)
+        ok = r[0] == "err" and r[1] == "LinearDependence"
+        if ok and kind == "collection":
+            ok = np.array_equal(np.asarray(getattr(r[2], "dependent_values", None)), np.array([True, False]))
+        if not ok:
+            ctx.disagree(f"C02:rounded-dependent:{kind}", desc, "LinearDependenceError" + (" with mask [True, False]" if kind == "collection" else ""),
+                         r[1:3] if r[0] != "ok" else "a result: " + str(np.asarray(r[1].array).tolist())[:200], replay=[desc])
+
+
+def large_int_stream(ctx, n):
+    """general position with integer (int64) coordinates of size 1e4 .. 2e5: never an error, and the exact span / intersection
+    (all intermediate products stay below 2^63)"""
+    import geometer as g
+    rng = ctx.rng
+    for k in range(n):
+        kind = rng.choice(["P2P2", "L2L2", "EE", "P3P3P3", "P3P3", "collection"])
+        big = lambda m: int(rng.choice([-1, 1]) * rng.randint(m // 10, m))
+        if kind in ("P2P2", "L2L2", "collection"):
+            a = [big(200000), rng.randint(-9, 9), 1]
+            b = [rng.randint(-9, 9), big(200000), 1]
+            rng.shuffle(a); rng.shuffle(b)
+            if np.linalg.matrix_rank(np.array([a, b], dtype=float)) < 2:
+                continue
+            exp = [a[1] * b[2] - a[2] * b[1], a[2] * b[0] - a[0] * b[2], a[0] * b[1] - a[1] * b[0]]
+            if kind == "P2P2":
+                f = lambda: g.join(g.Point(np.array(a)), g.Point(np.array(b)))
+            elif kind == "L2L2":
+                f = lambda: g.meet(g.Line(np.array(a)), g.Line(np.array(b)))
+            else:
+                f = lambda: g.join(g.PointCollection(np.array([a, [0, 0, 1], b])), g.PointCollection(np.array([b, [1, 2, 1], b])))
+        elif kind in ("EE", "P3P3"):
+            a = [big(100000), 0, rng.randint(-9, 9), 1]
+            b = [rng.randint(-9, 9), big(100000), 0, 1]
+            exp = None
+            f = (lambda: g.meet(g.Plane(np.array(a)), g.Plane(np.array(b)))) if kind == "EE" else (lambda: g.join(g.Point(np.array(a)), g.Point(np.array(b))))
+        else:
+            a = [big(5000), big(5000), rng.randint(-9, 9), 1]
+            b = [rng.randint(-9, 9), big(5000), big(5000), 1]
+            c = [big(5000), rng.randint(-9, 9), big(5000), 1]
+            if abs(np.linalg.det(np.array([a, b, c, [0, 0, 0, 1]], dtype=float))) < 1:
+                continue
+            exp = None
+            f = lambda: g.join(g.Point(np.array(a)), g.Point(np.array(b)), g.Point(np.array(c)))
+        desc = f"large integer coordinates {kind}: {a} {b}" + (f" {c}" if kind == "P3P3P3" else "")
+        ctx.case(desc)
+        ctx.count("large-int:" + kind)
+        r = call_impl(f)
+        if kind == "collection":
+            ok = r[0] == "err" and r[1] == "LinearDependence" and np.array_equal(np.asarray(getattr(r[2], "dependent_values", None)), np.array([False, False, True]))
+            if not ok:
+                ctx.disagree("C02:large-int:collection-mask", desc, "LinearDependenceError with mask [False, False, True]", r[1:3] if r[0] != "ok" else "no error", replay=[desc])
+            continue
+        if r[0] != "ok":
+            ctx.disagree(f"C02:large-int:{kind}:raises", desc, "the span / intersection (general position)", r[1:3], replay=[desc])
+            continue
+        res = np.asarray(r[1].array, dtype=float)
+        if exp is not None:
+            e = np.array([float(x) for x in exp])
+            ok = proj_close_nn(res, e, 1e-9)
+        else:
+            # incidence with every argument, scale-free
+            args = [np.array(x, dtype=float) for x in ((a, b, c) if kind == "P3P3P3" else (a, b))]
+            if res.ndim == 1:
+                ok = all(abs(res @ v) <= 1e-9 * np.linalg.norm(res) * np.linalg.norm(v) for v in args)
+            else:
+                M = res
+                if kind == "EE":
+                    # the returned contravariant matrix annihilates the points of the line; the planes through the line are
+                    # annihilated by its dual (Hodge star of the Pluecker matrix)
+                    L = res
+                    M = np.array([[0, L[2, 3], -L[1, 3], L[1, 2]], [-L[2, 3], 0, L[0, 3], -L[0, 2]], [L[1, 3], -L[0, 3], 0, L[0, 1]],
+                                  [-L[1, 2], L[0, 2], -L[0, 1], 0]])
+                ok = all(np.linalg.norm(M @ v) <= 1e-9 * np.linalg.norm(M) * np.linalg.norm(v) for v in args)
+        if not ok:
+            ctx.disagree(f"C02:large-int:{kind}:value", desc, "incident with every argument", res.tolist(), replay=[desc])
+
+
 def correspondence(ctx):
+    rounded_dependent_stream(ctx, ctx.budget(60, 600))
+    large_int_stream(ctx, ctx.budget(60, 600))
     variants_stream(ctx, ctx.budget(40, 400))
     same_object_stream(ctx, ctx.budget(40, 400))
     import glob, json, os
@@ -106,7 +229,7 @@ def correspondence(ctx):
     for sc in jmlib.SCENARIOS:
         for k in range(n):
             if k % 3 == 2:
-                op, args = jmlib.collection_case(g, sc, degen_rate=0.4)
+                op, args = jmlib.collection_case(g, sc, degen_rate=0.4, mixed_scale=True)
             else:
                 op, args = jmlib.single_case(g, sc, DEGS[k % len(DEGS)])
             cases.append((sc, op, args))
